@@ -42,6 +42,8 @@ def run_case(rs, ctx):
     rk = None
     if l in ("eg", "ucb", "sm", "pop") and rs.integers(2):
         rk = "binary"  # few distinct values -> exact ties between arm means
+    elif l in ("eg", "ucb", "sm", "pop") and rs.integers(3) == 0:
+        cfg["reward_stress"] = int(gen.pick(rs, [4, 5]))  # near ties: means that differ in the 10th significant digit only
     nf = int(gen.pick(rs, [1, 2, 3]))
     sh = gen.Shadow(cfg, nf)
     ops = gen.gen_ops(rs, cfg, sh, 1, ["fit"], train_rows=(4, 20), rkind=rk) + \
